@@ -18,7 +18,7 @@ RUNS = {"quick": 12, "thorough": 300}
 RUN_TIMEOUT_S = 900
 RULE = (
     "seeded scenes: PML (default grading) on a random subset of faces (possibly none) mixed with periodic/PEC/PMC/none; uniform or non-"
-    "uniform grid; random per-cell iso/diag eps (and mu); lossless, or conductive with k=T-1 only; 1-2 sources from zero fields; 1-3 "
+    "uniform grid; random per-cell iso/diag eps (and mu), full 3x3 SPD tensors in half of the PML-free lossless scenes; lossless, or conductive with k=T-1 only; 1-2 sources from zero fields; 1-3 "
     "detectors (field exact/raw, energy, Poynting, phasor) with random schedules; loss = <w, outputs> with seeded random cotangents. "
     "non-trivial = reference gradient non-zero on interior cells; distinct = scene signature x strategy set"
 )
@@ -46,6 +46,15 @@ def generate(rng, tier, index):
         m.pop("sigma_e_tier", None)
     else:
         m["sigma_e_max"] = 2.5e-3
+    # fully anisotropic (9-component) lossless tensors: only in scenes without absorbing layers - next to a PML the reverse
+    # pass is off for full tensors (known finding C03-full-tensor-next-to-pml), which would mask everything else
+    no_pml = not any(f["kind"] == "pml" for f in spec["faces"].values())
+    if no_pml and not lossy and rng.uniform() < 0.5:
+        m["eps_tier"] = "full"
+        if m.get("mu_tier") and rng.uniform() < 0.5:
+            m["mu_tier"] = "full"
+        region = [[0, n] for n in spec["shape"]]
+        spec["sources"] = [s if s["kind"] == "dipole" else specgen.rand_dipole(rng, s["name"], spec["shape"], region, spec["steps"]) for s in spec["sources"]]
     # detectors read only cells outside the absorbing layers (co-location reaches one cell further): the
     # reverse pass reconstructs the interior only, a detector inside a layer is outside the statement
     inner = specgen.inner_region(spec["shape"], spec["faces"])
@@ -193,6 +202,7 @@ def execute(spec):
                 break
     stats["sim_time_fs"] = stats["sim_steps"] * scn.dt * 1e15
     stats["probe_pml"] = int(any(f["kind"] == "pml" for f in spec["faces"].values()))
+    stats["probe_full_tensor"] = int(spec["materials"].get("eps_tier") == "full")
     stats["probe_lossy"] = int(bool(spec["materials"].get("sigma_e_tier")))
     stats["probe_mu_gradient"] = int(mu_is_array)
     stats["probe_complex_output"] = int(any(jnp.iscomplexobj(v) for v in w.values()))
